@@ -136,6 +136,7 @@ type Chain struct {
 	txIndex map[string]int
 	ProbeDenoms []string
 	ProbeAssets []string
+	Registry bool // project module parameters (scene option)
 	RestartEveryBlock bool // C19: re-instantiate the application from its database after every committed block
 }
 
